@@ -5,6 +5,7 @@ use crate::generator::error::{GeneratorError, GeneratorErrorType};
 use crate::intermediate::constraints::{
     Constraint, ElementOrSetOperation, ElementSetSpecs, SubtypeElements,
 };
+use crate::intermediate::DeclarationElsewhere;
 
 use super::{
     types::{BitString, Choice, Optionality, SequenceOrSet},
@@ -66,8 +67,20 @@ pub fn type_to_tokens(ty: &ASN1Type, extensibility_implied: bool) -> String {
         ASN1Type::SetOf(s) | ASN1Type::SequenceOf(s) => {
             array_of(&type_to_tokens(&s.element_type, extensibility_implied))
         }
-        ASN1Type::ElsewhereDeclaredType(e) => to_jer_identifier(&e.identifier),
+        ASN1Type::ElsewhereDeclaredType(e) => reference_to_tokens(e),
         _ => String::from("any"),
+    }
+}
+
+/// A reference to a type: `Module.Type` names the type inside the namespace of that module.
+pub fn reference_to_tokens(reference: &DeclarationElsewhere) -> String {
+    match &reference.module {
+        Some(module) => format!(
+            "{}.{}",
+            to_jer_identifier(module),
+            to_jer_identifier(&reference.identifier)
+        ),
+        None => to_jer_identifier(&reference.identifier),
     }
 }
 
